@@ -10,7 +10,7 @@ CLAIMED = {
  "C01": ("model_checking", "exhaustive exploration of the execution tree of the real sample() under finite RNG alphabets (stateless explicit-state search with loop closure by bounded bisimulation; exact law of the finite-alphabet chain vs documented CDF with an a-posteriori error bound)",
          "T", "DESIGN.md §3.1, §5-C01",
          "For every continuous family x {f32,f64} x grid point of envelope E the complete execution graph of sample() is explored: macro-atom alphabets for StandardNormal/Exp1 draws (rebuilt from the code each run), midpoint lattices with dyadic tails for value-producing words, exact interval subdivision for comparison-only words, rejection loops closed by restart detection. The resulting exact output law is compared with the documented CDF at ~270 checkpoints (quantiles k/256 and tails to 1e-6).",
-         "Decided up to the computed tolerance (typ. 1e-4..1e-3 for one value-producing draw, >= one second-level cell (2e-3 quick) for two; cases with >= 4 value-producing draws are not judged in the quick tier). Assumption A-res (no feature narrower than the local resolution between explored words). References: closed forms / special crate, cross-checked against scipy."),
+         "Decided up to the computed tolerance (typ. 1e-4..1e-3 for one value-producing draw, >= one second-level cell (2e-3 quick) for two; trees with >= 3 value-producing levels are explored under reach-aware size plans (DESIGN §11.9) and are reported as not judged when no planned exploration completes within the case's time share). Assumption A-res (no feature narrower than the local resolution between explored words). References: closed forms / special crate, cross-checked against scipy."),
  "C02": ("model_checking", "exhaustive exploration of the execution tree of the real sample() under finite RNG alphabets; exact pmf by interval subdivision + shift-restart closure for inverse transforms, lattices for BTPE/H2PE/PD",
          "T", "DESIGN.md §3.1, §5-C02",
          "Same engine as C01 on Binomial (all n<=30 x 18 p plus grids to 2^62), Poisson, Geometric, Hypergeometric, Zipf, Zeta. Single-word inverse transforms (BINV, HIN, both geometric loops) are resolved exactly (1e-15); BTPE, H2PE, PD-Poisson, Zipf, Zeta by lattice x subdivision.",
@@ -26,7 +26,7 @@ CLAIMED = {
  "C12": ("model_checking", "engine T exploration of the rejection loops of the four unit-geometry samplers (two/three lattice levels) + deviation-bounded enumeration and all 2^24 f32 first-draw patterns for the norm constraints",
          "T+D", "DESIGN.md §5-C12",
          "Norm/NaN: every explored execution. Uniformity: exact finite-alphabet law of angle, r^2, z, longitude, r^3, z/r and two conditional projections against the uniform law.",
-         "Uniformity decided up to one second-level lattice cell (2e-3 quick); a defect confined to a region smaller than a cell (needing two or three simultaneous special words) is outside what is explored."),
+         "Uniformity decided up to one second-level lattice cell (2e-3 quick; UnitBall and samplers whose rejection loop carries state use reach-aware size plans, tolerance about 1e-2); a defect confined to a region smaller than a cell (needing two or three simultaneous special words) is outside what is explored."),
  "C04": ("exploration", "exhaustive enumeration of the cross product of a special-value lattice per constructor argument against an oracle transcribed from the documented error variants",
          "F", "DESIGN.md §5-C04",
          "Every public float constructor (new, from_mean_cv, with_mode, with_mean, Dirichlet::new for lengths 0..3) x f32/f64 x the full cross product of a ~41-value lattice per argument (NaN, +-inf, +-0, subnormals, MIN_POSITIVE, MAX, thresholds +-1ulp); Binomial/Geometric/Hypergeometric over a 12-value u64 lattice. Judged: Err exactly when a documented condition holds, the returned variant's condition holds, no panic, accessors return the arguments.",
@@ -53,7 +53,7 @@ CLAIMED = {
          "Complete for the stated space. The f32 conversions use the top 24 bits of a next_u32 served from the top of the script word."),
  "C14": ("model_checking", "explicit-state exploration of all call histories up to a depth over {A, clone, equal rebuild, sibling, other family} x two cursors on one word sequence, executed on the real objects with a differential oracle between histories",
          "H", "DESIGN.md §5-C14",
-         "For a spread of cases covering every family and representation variant (all cases in the thorough tier): all 10^4 (quick) call sequences; a table keyed by (parameter class, cursor before) must receive the same (result bits, cursor after) from every history; Debug/== unchanged after sampling; sample_iter agrees with repeated sample.",
+         "For a spread of cases covering every family and representation variant (all cases in the thorough tier): all 10^4 (quick) call sequences; a table keyed by (parameter class, cursor before) must receive the same (result bits, cursor after) from every history; Debug/== unchanged after sampling; sample_iter agrees with repeated sample, also when sample / sample_iter are written with method syntax on 41 concrete types (where an inherent method would shadow the trait's).",
          "Single-threaded histories (the crate has no synchronisation to schedule)."),
  "C15": ("exploration", "enumeration of every serde-enabled type x representation variant: JSON and value-tree round trips, equality, and identical sampling on base streams and all single-word deviations at the first requests",
          "F+D", "DESIGN.md §5-C15",
@@ -62,7 +62,7 @@ CLAIMED = {
  "C05": ("fault_enumeration", "deviation-bounded exhaustive enumeration of RNG answers with a per-call word cap and wall-clock watchdog on the real samplers",
          "D+T", "DESIGN.md §3.2, §5-C05",
          "Same enumeration as C03 (plus the extremes of every accepted parameter range); the oracle is the number of RNG words requested by one call (< 1e5) and a 2 s per-call watchdog (constructors included). Part (a): the exact expected number of words per output of every law case under a coarse finite alphabet, computed by engine T with loop closure, must stay below 32 (observed maximum 5.0): a parameter region whose acceptance rate collapses shows 10^2 - 10^6.",
-         "A hung thread cannot be cancelled: it is reported and abandoned, the process exits at the end. Cases whose loops engine T cannot close at the coarse resolution (residual > 0.5) are only covered by the per-call cap."),
+         "A hung thread cannot be cancelled: it is reported and abandoned (the sweep stops handing out jobs after 16 abandoned calls), the process exits at the end; a call that never returns outside the worker pool ends the run through the hang monitor with a VIOLATION (DESIGN §11.9). Cases whose loops engine T cannot close at the coarse resolution (residual > 0.5) are only covered by the per-call cap."),
 }
 PLANNED = {
 }
